@@ -31,21 +31,40 @@ The decision whether the lists respect the lock discipline is NOT taken here: it
 `all_methods_ok Locks.all_methods = true`, checked by vm_compute in Coq (Proofs/C18_Locks.v).
 """
 import ast
+import hashlib
 import os
 
 from pylite import Refuse
 
 REPO = os.path.realpath(os.environ.get('VERIF_REPO', '/repo'))
 
-# (class name, [(file, class)] in MRO order, entry methods)
+# (class name, [(file, class)] in MRO order, methods NOT analysed with the reason)
+# Entry points are discovered, not listed: every method of the MRO classes that takes `self` and is public
+# or a dunder (names with one leading underscore are helpers: analysed where they are called) -- a method
+# added to a shared class is analysed automatically.
 CLASSES = [
     ('SessionCache', [('tlslite/sessioncache.py', 'SessionCache')],
-     ['__getitem__', '__setitem__']),
+     {'__init__': 'constructor'}),
     ('VerifierDB', [('tlslite/verifierdb.py', 'VerifierDB'), ('tlslite/basedb.py', 'BaseDB')],
-     ['__getitem__', '__setitem__', '__delitem__', '__contains__', 'check', 'keys']),
-    ('Python_RSAKey', [('tlslite/utils/python_rsakey.py', 'Python_RSAKey')],
-     ['_rawPrivateKeyOp']),
+     {'__init__': 'constructor',
+      'create': 'set-up: rebinds self.db; documented to be called before the database is used',
+      'open': 'set-up: rebinds self.db; documented to be called before the database is used'}),
+    ('Python_RSAKey', [('tlslite/utils/python_rsakey.py', 'Python_RSAKey'), ('tlslite/utils/rsakey.py', 'RSAKey')],
+     {'__init__': 'constructor',
+      'write': 'abstract in these classes (raises NotImplementedError)'}),
 ]
+# entry points that must be present (the property names them); discovery may only add to these
+REQUIRED = {
+    'SessionCache': ['__getitem__', '__setitem__'],
+    'VerifierDB': ['__getitem__', '__setitem__', '__delitem__', '__contains__', 'check', 'keys'],
+    'Python_RSAKey': ['sign', 'verify', 'encrypt', 'decrypt', 'hashAndSign', 'hashAndVerify',
+                      'RSASSA_PSS_sign', 'RSASSA_PSS_verify'],
+}
+# decorators that only rename keyword arguments
+TRANSPARENT_DECORATORS = {'deprecated_params', 'deprecated_method'}
+# sources of randomness: a value computed from them is not reproducible
+RANDOM_FUNCTIONS = {'getRandomBytes', 'getRandomNumber', 'getRandomPrime', 'getRandomSafePrime', 'urandom', 'random',
+                    'randrange', 'randint', 'getrandbits'}
 
 # calls that read a clock: any function of these modules, or these bare names
 CLOCK_MODULES = {'time', 'datetime'}
@@ -55,6 +74,16 @@ CLOCK_FUNCTIONS = {'time', 'monotonic', 'perf_counter', 'time_ns', 'monotonic_ns
 PURE_METHODS = {'keys', 'get', 'items', 'values', '__contains__', 'copy'}
 # methods that return a live view of a dict: the result aliases the object
 VIEW_METHODS = {'keys', 'items', 'values'}
+
+
+FRESH_CTORS = {'bytearray', 'list', 'dict', 'set', 'bytes'}
+
+
+def is_fresh_expr(v):
+    """an expression whose value is a new object nobody else can hold"""
+    if isinstance(v, (ast.List, ast.Dict, ast.Set, ast.ListComp, ast.DictComp, ast.SetComp, ast.BinOp)):
+        return True
+    return isinstance(v, ast.Call) and isinstance(v.func, ast.Name) and v.func.id in FRESH_CTORS
 
 
 def is_self(e):
@@ -72,6 +101,8 @@ class MethodExtractor:
     def __init__(self, cls):
         self.cls = cls
         self.aliases = {}
+        self.locals = set()
+        self.fresh = set()        # local names bound to an object created in this call (may be mutated freely)
         self.stack = []
 
     # ------------------------------------------------------------ expressions
@@ -176,8 +207,18 @@ class MethodExtractor:
         if isinstance(f, ast.Name):
             if f.id == 'self':
                 raise Refuse('call of self')
+            if f.id in ('hasattr', 'getattr') and len(e.args) >= 2 and is_self(e.args[0]) and \
+                    isinstance(e.args[1], ast.Constant) and isinstance(e.args[1].value, str) and not e.keywords:
+                a = e.args[1].value                     # hasattr(self, 'a') / getattr(self, 'a'[, default])
+                if a in self.cls.locks:
+                    raise Refuse('lock attribute used as a value (line %d)' % e.lineno)
+                self.cls.check_attr(a, e.lineno)
+                return sum((self.acc(x) for x in e.args[2:]), []) + (
+                    [('R', a, 'Ref')] if f.id == 'hasattr' else self.bare(a))
+            if f.id in RANDOM_FUNCTIONS:
+                return self.args(e) + [('N',), ('L',)]      # 'N': non-reproducible value
             return self.args(e) + [('L',)]
-        raise Refuse('call target %s (line %d)' % (type(f).__name__, e.lineno))
+        return self.acc(f) + self.args(e) + [('L',)]       # computed callee, e.g. getattr(hashlib, name)()
 
     def shared_args(self, e):
         """arguments that are self attributes or aliases: {position or keyword: attribute}; the callee's
@@ -203,7 +244,7 @@ class MethodExtractor:
         sub = MethodExtractor(self.cls)
         sub.stack = self.stack + [key]
         sub.aliases = {}
-        params = [a.arg for a in fd.args.args[1:]]
+        params = [a.arg for a in (fd.args.args if method_kind(fd) == 'static' else fd.args.args[1:])]
         for k, attr in (shared or {}).items():
             if isinstance(k, int):
                 if k >= len(params):
@@ -216,6 +257,23 @@ class MethodExtractor:
         return sub.method(fd)
 
     # ------------------------------------------------------------ statements
+    def branch(self, stmts, what, lineno):
+        """a branch that may contain whole critical sections (only through inlined calls / with / the
+        acquire-try-finally idiom, i.e. balanced)"""
+        steps = self.block(stmts)
+        for pth in expand(steps):
+            depth = 0
+            for x in pth:
+                if x[0] == 'A':
+                    depth += 1
+                elif x[0] == 'X':
+                    depth -= 1
+                if depth < 0 or depth > 1:
+                    raise Refuse('unbalanced lock operations inside %s (line %d)' % (what, lineno))
+            if depth != 0:
+                raise Refuse('unbalanced lock operations inside %s (line %d)' % (what, lineno))
+        return steps
+
     def store(self, t):
         if isinstance(t, ast.Name):
             return []
@@ -232,7 +290,10 @@ class MethodExtractor:
                 return self.acc(t.slice) + [('R', a, 'Ref'), ('W', a, 'Obj')]
             if isinstance(t.value, ast.Name) and t.value.id in self.aliases:
                 return self.acc(t.slice) + [('W', self.aliases[t.value.id], 'Obj')]
-            raise Refuse('subscript store on a non-self target (line %d)' % t.lineno)
+            if isinstance(t.value, ast.Name) and t.value.id in self.fresh:
+                return self.acc(t.slice)                 # in-place change of an object this call created
+            raise Refuse('subscript store on a non-self target that this call did not create (line %d): '
+                         'it may be shared' % t.lineno)
         raise Refuse('assignment target %s (line %d)' % (type(t).__name__, t.lineno))
 
     def note_aliases(self, targets, value):
@@ -249,6 +310,10 @@ class MethodExtractor:
                         self.aliases.pop(x.id, None)
         for t, v in pairs:
             if isinstance(t, ast.Name):
+                if is_fresh_expr(v):
+                    self.fresh.add(t.id)
+                else:
+                    self.fresh.discard(t.id)
                 a = self_attr(v)
                 if a is None and isinstance(v, ast.Call) and isinstance(v.func, ast.Attribute) \
                         and v.func.attr in VIEW_METHODS:
@@ -270,7 +335,12 @@ class MethodExtractor:
 
     @staticmethod
     def has_lock_ops(steps):
-        return any(x[0] in ('A', 'X') for x in steps)
+        for x in steps:
+            if x[0] in ('A', 'X'):
+                return True
+            if x[0] == 'ALT' and any(MethodExtractor.has_lock_ops(p) for p in x[1]):
+                return True
+        return False
 
     def nolock(self, stmts, what, lineno):
         steps = self.block(stmts)
@@ -310,7 +380,17 @@ class MethodExtractor:
         if isinstance(s, ast.Assign):
             r = self.acc(s.value)
             for t in s.targets:
-                r += self.store(t)
+                st = self.store(t)
+                a = self_attr(t)
+                names = [x.id for x in ast.walk(s.value) if isinstance(x, ast.Name) and x.id != 'self']
+                if a is not None and st == [('W', a, 'Ref')] and not any(x[0] in ('N', 'C', 'W', 'A', 'X', 'ALT') for x in r) \
+                        and all(nm in self.aliases or nm not in self.locals for nm in names):
+                    # self.a = E with E free of clock, randomness, writes, lock operations and of local
+                    # variables other than copies of attributes: a candidate for "idempotent initialisation"
+                    # (decided in Coq: every attribute E reads must be immutable and different from a)
+                    st = [('I', a, tuple(sorted(set((x[1], x[2]) for x in r if x[0] == 'R'))),
+                           hashlib.sha256(ast.dump(s.value).encode()).hexdigest()[:12])]
+                r += st
             self.note_aliases(s.targets, s.value)
             return r + [('L',)]
         if isinstance(s, ast.AugAssign):
@@ -320,6 +400,8 @@ class MethodExtractor:
             if isinstance(s.target, ast.Name):
                 self.aliases.pop(s.target.id, None)
                 return self.acc(s.value) + [('L',)]
+            if isinstance(s.target, ast.Subscript):
+                return self.acc(s.value) + self.store(s.target) + [('L',)]
             raise Refuse('augmented assignment target (line %d)' % s.lineno)
         if isinstance(s, ast.Delete):
             r = []
@@ -339,8 +421,15 @@ class MethodExtractor:
         if isinstance(s, (ast.Pass, ast.Break, ast.Continue)):
             return []
         if isinstance(s, ast.If):
-            return (self.acc(s.test) + [('L',)] + self.nolock(s.body, 'if', s.lineno)
-                    + self.nolock(s.orelse, 'else', s.lineno))
+            saved = dict(self.aliases)
+            b = self.branch(s.body, 'if', s.lineno)
+            self.aliases = dict(saved)
+            o = self.branch(s.orelse, 'else', s.lineno)
+            self.aliases = saved
+            if self.has_lock_ops(b) or self.has_lock_ops(o):
+                # a critical section inside a branch: the two branches are separate paths
+                return self.acc(s.test) + [('L',), ('ALT', [b, o])]
+            return self.acc(s.test) + [('L',)] + b + o
         if isinstance(s, ast.While):
             return (self.acc(s.test) + [('L',)] + self.nolock(s.body, 'while', s.lineno)
                     + self.nolock(s.orelse, 'while-else', s.lineno))
@@ -355,7 +444,7 @@ class MethodExtractor:
                 raise Refuse('with on something that is not a lock of self (line %d)' % s.lineno)
             return [('A', a)] + self.nolock(s.body, 'with', s.lineno) + [('X', a)]
         if isinstance(s, ast.Try):
-            r = self.nolock(s.body, 'try', s.lineno)
+            r = self.branch(s.body, 'try', s.lineno)
             for h in s.handlers:
                 r += self.acc(h.type) + self.nolock(h.body, 'except handler', h.lineno)
             return r + self.nolock(s.orelse, 'try-else', s.lineno) + self.nolock(s.finalbody, 'finally', s.lineno)
@@ -364,20 +453,57 @@ class MethodExtractor:
     def method(self, fd):
         for n in ast.walk(fd):
             a = self_attr(n)
-            if a is not None and a not in self.cls.init_attrs and a not in self.cls.method_names:
-                raise Refuse('attribute self.%s (line %d) is not created by __init__: unknown shared state'
-                             % (a, n.lineno))
+            if a is not None:
+                self.cls.check_attr(a, n.lineno)
         if fd.args.vararg or fd.args.kwarg:
             raise Refuse('varargs in %s' % fd.name)
-        if not fd.args.args or fd.args.args[0].arg != 'self':
+        kind = method_kind(fd)
+        self.locals = set(a.arg for a in fd.args.args + fd.args.kwonlyargs)
+        for n in ast.walk(fd):
+            if isinstance(n, ast.Name) and isinstance(n.ctx, (ast.Store, ast.Del)):
+                self.locals.add(n.id)
+        if kind == 'instance' and (not fd.args.args or fd.args.args[0].arg != 'self'):
             raise Refuse('%s is not an instance method' % fd.name)
-        if fd.decorator_list:
-            raise Refuse('decorated method %s' % fd.name)
         for n in ast.walk(fd):
             if isinstance(n, (ast.Yield, ast.YieldFrom, ast.Await, ast.Lambda, ast.Global, ast.Nonlocal,
                               ast.FunctionDef, ast.AsyncFunctionDef, ast.ClassDef)) and n is not fd:
                 raise Refuse('%s in %s (line %d)' % (type(n).__name__, fd.name, n.lineno))
         return self.block(fd.body)
+
+
+MAX_PATHS = 64
+
+
+def expand(steps):
+    """all paths of a step list with ('ALT', [alternatives]) markers"""
+    paths = [[]]
+    for x in steps:
+        if x[0] == 'ALT':
+            alts = [q for alt in x[1] for q in expand(alt)]
+            paths = [pth + q for pth in paths for q in alts]
+        else:
+            for pth in paths:
+                pth.append(x)
+        if len(paths) > MAX_PATHS:
+            raise Refuse('more than %d lock-relevant paths' % MAX_PATHS)
+    return paths
+
+
+def method_kind(fd):
+    """'instance' | 'static' | 'class'; unknown decorators are refused"""
+    kind = 'instance'
+    for d in fd.decorator_list:
+        name = d.id if isinstance(d, ast.Name) else (
+            d.func.id if isinstance(d, ast.Call) and isinstance(d.func, ast.Name) else None)
+        if name == 'staticmethod':
+            kind = 'static'
+        elif name == 'classmethod':
+            kind = 'class'
+        elif name in TRANSPARENT_DECORATORS:
+            pass
+        else:
+            raise Refuse('decorator on %s (line %d)' % (fd.name, fd.lineno))
+    return kind
 
 
 class ClassInfo:
@@ -428,6 +554,10 @@ class ClassInfo:
                             if a is not None:
                                 self.locks.add(a)
 
+    def check_attr(self, a, lineno):
+        if a not in self.init_attrs and a not in self.method_names:
+            raise Refuse('attribute self.%s (line %d) is not created by __init__: unknown shared state' % (a, lineno))
+
     def find_method(self, name, start_after=None):
         seen = start_after is None
         for cname, cd, _ in self.mro:
@@ -454,23 +584,45 @@ def coq_step(x):
         return 'XWrite "%s" %s' % (x[1], x[2])
     if x[0] == 'C':
         return 'XClock'
+    if x[0] == 'N':
+        return 'XLocal'
+    if x[0] == 'I':
+        return 'XInit "%s" [%s] "%s"' % (x[1], '; '.join('("%s", %s)' % d for d in x[2]), x[3])
     return 'XLocal'
 
 
+def entry_points(ci, excluded):
+    names = []
+    for cname, cd, _ in ci.mro:
+        for n in cd.body:
+            if not isinstance(n, ast.FunctionDef) or n.name in names or n.name in excluded:
+                continue
+            if n.name.startswith('_') and not (n.name.startswith('__') and n.name.endswith('__')):
+                continue                      # helper: analysed where it is called
+            if method_kind(n) != 'instance':
+                continue                      # no instance: cannot touch the shared object
+            names.append(n.name)
+    return names
+
+
 def extract_all():
-    """[(class, method, [steps])] ; raises Refuse"""
+    """[(class, method, [path, ...])], a path being a list of steps ; raises Refuse"""
     out = []
-    for name, mro, entries in CLASSES:
-        ci = ClassInfo(name, mro, entries)
+    for name, mro, excluded in CLASSES:
+        ci = ClassInfo(name, mro, None)
         if not ci.locks:
             raise Refuse('%s creates no threading.Lock' % name)
+        entries = entry_points(ci, excluded)
+        for m in REQUIRED[name]:
+            if m not in entries:
+                raise Refuse('method %s.%s not found' % (name, m))
+        if name == 'Python_RSAKey':
+            entries = ['_rawPrivateKeyOp'] + entries      # also analysed on its own (tie of the RSA step program)
         for m in entries:
             fd = ci.find_method(m)
-            if fd is None:
-                raise Refuse('method %s.%s not found' % (name, m))
             ex = MethodExtractor(ci)
             ex.stack = [(m, None)]
-            out.append((name, m, ex.method(fd)))
+            out.append((name, m, expand(ex.method(fd))))
     return out
 
 
@@ -478,18 +630,26 @@ class LocksUnit:
     def translate(self):
         ms = extract_all()
         lines = ['(* GENERATED by translator/units_locks.py from tlslite/sessioncache.py, basedb.py, verifierdb.py,',
-                 '   utils/python_rsakey.py -- do not edit.  Vocabulary: Model/C18_LockSteps.v *)',
+                 '   utils/python_rsakey.py, utils/rsakey.py -- do not edit.  Vocabulary: Model/C18_LockSteps.v.',
+                 '   A method whose critical section sits inside a conditional has one step list per path. *)',
                  'From Coq Require Import List String.',
                  'From TV Require Import Model.C18_LockSteps.',
                  'Import ListNotations.', 'Open Scope string_scope.', '']
-        names = []
-        for cls, m, steps in ms:
-            ident = '%s_%s' % (cls, m.strip('_'))
-            names.append((cls, m, ident))
-            body = ';\n  '.join(coq_step(x) for x in steps)
-            lines.append('Definition %s : list xstep := [\n  %s\n].\n' % (ident, body))
-        lines.append('Definition all_methods : list xmethod := [\n  %s\n].' % ';\n  '.join(
-            '("%s", "%s", %s)' % t for t in names))
+        table = []
+        for cls, m, paths in ms:
+            base = '%s_%s' % (cls, m.strip('_'))
+            idents = []
+            for k, steps in enumerate(paths):
+                ident = base if len(paths) == 1 else '%s_path%d' % (base, k + 1)
+                idents.append(ident)
+                body = ';\n  '.join(coq_step(x) for x in steps)
+                lines.append('Definition %s : list xstep := [\n  %s\n].\n' % (ident, body))
+            table.append('("%s", "%s", [%s])' % (cls, m, '; '.join(idents)))
+        lines.append('Definition all_method_paths : list (string * string * list (list xstep)) := [\n  %s\n].\n'
+                     % ';\n  '.join(table))
+        lines.append('Definition all_methods : list xmethod :=\n'
+                     '  flat_map (fun e : string * string * list (list xstep) =>\n'
+                     "              let '(c, m, ps) := e in map (fun p => (c, m, p)) ps) all_method_paths.")
         return '\n'.join(lines)
 
 
